@@ -71,3 +71,27 @@ package cluster
 //@   ensures result != nil && result.shards != nil && fresh(result)
 //@   ensures forall id uint64 :: !has(result.shards, id)
 //@   modifies nothing
+
+// ---------------------------------------------------------------- wiring (C19)
+
+//@ import memberlist "github.com/hashicorp/memberlist"
+//@ import cluster "github.com/jamf/regatta/storage/cluster"
+//@ trustframe "github.com/hashicorp/memberlist" "go.uber.org/zap" "net" "strconv"
+//@ func dns.NewResolver
+//@   assumed
+//@   modifies nothing
+//@ func infoContract
+//@   assumed
+//@   modifies nothing
+//@ func memberlist.DefaultLANConfig
+//@   assumed
+//@   ensures result != nil && fresh(result)
+//@   modifies nothing
+
+// New: the gossip delegate merges remote state into the very view the cluster answers ShardInfo
+// from, and delivers messages into the cluster's own channel
+//@ func New
+//@   functype f infoContract
+//@   requires f != nil
+//@   before memberlist.Create assert [C19.wire] typeIs(conf.Delegate, *cluster.delegate) && asType(conf.Delegate, *cluster.delegate) != nil && asType(conf.Delegate, *cluster.delegate).shardView == cluster.shardView && cluster.shardView != nil && asType(conf.Delegate, *cluster.delegate).msgs == cluster.msgs && typeIs(conf.Events, *cluster.Cluster) && asType(conf.Events, *cluster.Cluster) == cluster
+//@   modifies nothing
